@@ -296,13 +296,20 @@ def one_config(ck, F, cfg):
     sf = F.moduli[K_SCALAR]
     ck.require(True, "R14.6", "scalar-field", "", detail=f"ScalarField = {sf['ty']} with modulus r")
 
+    # 6b. every scalar-field configuration the zorro module re-exports is the configuration of that declared scalar field
+    cfg_name = sf["config"]
+    n_cfg = 0
+    for rx in F.items.get("reexports", []):
+        if rx["in"].startswith("curve::zorro::fr") and rx["dk"] == "Struct" and rx["vis"] == "pub":
+            n_cfg += 1
+            ck.require(rx["target"] == cfg_name, "R14.6", f"scalar-field-config:{rx['name']}", f"zorro::{rx['name']} re-exports {rx['target']}, but the declared scalar field's configuration (modulus r) is {cfg_name}", "src/curve/zorro/fr.rs")
     # 7. mul_by_a
     try:
         coef = linear_form(mula, {"a": a})
         ck.require((coef - a) % p == 0, "R14.7", "mul_by_a", f"mul_by_a computes {coef}*x but declared COEFF_A is {a}", where=FX.short(mula["sp"]), detail=f"linear form {coef}*x")
     except ValueError as e:
         ck.fail("R14.7", "mul_by_a", f"unanalysable: {e}", where=FX.short(mula["sp"]), kind="unanalysable")
-    ck.floor("C14 obligations", len([o for o in ck.obligations if o[0].startswith("R14")]), 13)
+    ck.floor("C14 obligations", len([o for o in ck.obligations if o[0].startswith("R14")]), 14)
     return {k: str(v) for k, v in vals.items()}
 
 CLAIM = {
